@@ -63,40 +63,62 @@ theorem eventually_answered (c : Cfg) (evs0 : List Ev) (sched : Nat → Ev) (a :
     ∃ n, a ∈ (sysAt c (sysRun c evs0) sched n).rob.delivered.map (·.rspTo) :=
   eventually_done c a (sysRun c evs0) sched hw hn hfair _ 0 (Win.of (sysRun_ok c evs0) hwin) (Nat.le_refl _)
 
-/-- **From the Top port to the requester.** Once `a`'s response has entered the Top port's
-    outgoing buffer, no event of any kind (flush and restart included) removes or overtakes it:
-    along any event list, either the requester has taken it, or its position in the buffer has
-    dropped by the number of `takeRsp` events — so it is handed over at the latest with the
-    `topOutCap`-th response the requester takes. -/
+/-- **From the Top port to the requester.** While `a`'s response waits in the Top port's
+    outgoing buffer (`0 < nu`) and no step of the event list ends with the ROB in the flushing
+    state, no event removes or overtakes it: either the requester has taken it, or it still
+    waits there and its position has dropped by the number of `takeRsp` events — so it is handed
+    over at the latest with the `topOutCap`-th response the requester takes. (Restart without
+    flush and all other events are harmless; a *flush* is the exception since repair 7c2f5a70 —
+    see `flush_drops_waiting_response`.) -/
 theorem response_reaches_requester (c : Cfg) (evs0 evs : List Ev) (a : Nat)
-    (hdone : a ∈ (sysRun c evs0).rob.delivered.map (·.rspTo)) :
+    (hwait : 0 < (sysRun c evs0).nu a) (hnf : NoFlushAlong c (sysRun c evs0) evs) :
     let σ := sysRun c evs0
     let σ' := sysRun c (evs0 ++ evs)
-    (a ∈ σ'.out.map (·.rspTo) ∨ σ'.nu a + takeCount evs ≤ σ.nu a) ∧
+    (a ∈ σ'.out.map (·.rspTo) ∨ (0 < σ'.nu a ∧ σ'.nu a + takeCount evs ≤ σ.nu a)) ∧
     (c.topOutCap ≤ takeCount evs → a ∈ σ'.out.map (·.rspTo)) := by
   intro σ σ'
   have hrun : σ' = evs.foldl (sysStep c) σ := by simp [σ, σ', sysRun, List.foldl_append]
   have ok := sysRun_ok c evs0
-  have key := taken_fold c a evs σ ok hdone
+  have key := taken_fold c a evs σ ok hwait hnf
   rw [← hrun] at key
   refine ⟨key, fun hcap => ?_⟩
-  rcases key with h | le
+  rcases key with h | ⟨hpos, le⟩
   · exact h
-  · by_cases hn : a ∈ σ'.out.map (·.rspTo)
-    · exact hn
-    · exfalso
-      have ok' : σ'.Ok c := sysRun_ok c (evs0 ++ evs)
-      have d' : σ'.Done a := by rw [hrun]; exact done_fold c a evs σ ok hdone
-      have hpos := nu_pos c a σ' ok' d' hn
-      have h1 : σ.nu a ≤ σ.rob.topOut.length := by
-        unfold Sys.nu
-        have := lastPos_le [a] (σ.rob.topOut.map (·.rspTo))
-        simpa using this
-      have h2 : σ.rob.topOut.length ≤ c.topOutCap := SInv.topOutLe ok
-      omega
+  · exfalso
+    have h1 : σ.nu a ≤ σ.rob.topOut.length := by
+      unfold Sys.nu
+      have := lastPos_le [a] (σ.rob.topOut.map (·.rspTo))
+      simpa using this
+    have h2 : σ.rob.topOut.length ≤ c.topOutCap := SInv.topOutLe ok
+    omega
 
-example : 0 ∈ (sysRun demoCfg residueEvs).rob.delivered.map (·.rspTo) ∧ (sysRun demoCfg residueEvs).nu 0 = 1 ∧
-    (sysRun demoCfg (residueEvs ++ [.ctl ⟨false, true⟩, .tick, .takeRsp])).out.map (·.rspTo) = [0] := by decide
+example : (sysRun demoCfg (residueEvs.take 6)).nu 0 = 1 ∧
+    NoFlushAlong demoCfg (sysRun demoCfg (residueEvs.take 6)) [.ctl ⟨false, true⟩, .tick, .takeRsp] ∧
+    (sysRun demoCfg (residueEvs.take 6 ++ [.ctl ⟨false, true⟩, .tick, .takeRsp])).out.map (·.rspTo) = [0] := by
+  refine ⟨by decide, ⟨by decide, by decide, by decide, trivial⟩, by decide⟩
+
+/-- **The flush exception.** A response that waits in the Top port when the ROB enters the
+    flushing state is removed with the port's outgoing buffer and is never handed to the
+    requester, in any continuation (it answers a request accepted before the flush:
+    `flush_silences_top`). -/
+theorem flush_drops_waiting_response (c : Cfg) (evs more : List Ev) (a : Nat)
+    (hacc : a ∈ (sysRun c evs).rob.accepted) (hnot : a ∉ (sysRun c evs).out.map (·.rspTo))
+    (hf : (sysRun c evs).rob.flushing = true) :
+    a ∉ (sysRun c (evs ++ more)).out.map (·.rspTo) := by
+  intro hm
+  obtain ⟨t, ht⟩ := sysFold_out c more (sysRun c evs)
+  have hrun : sysRun c (evs ++ more) = more.foldl (sysStep c) (sysRun c evs) := by
+    simp [sysRun, List.foldl_append]
+  rw [← hrun] at ht
+  rw [ht, List.map_append] at hm
+  rcases List.mem_append.1 hm with hm | hm
+  · exact hnot hm
+  · obtain ⟨d, hd, rfl⟩ := List.mem_map.1 hm
+    exact flush_silences_top c evs more hf d (by rw [ht, List.drop_left]; exact hd) hacc
+
+example : 0 ∈ (sysRun demoCfg residueEvs).rob.accepted ∧ (sysRun demoCfg (residueEvs.take 7)).nu 0 = 1 ∧
+    (sysRun demoCfg residueEvs).rob.flushing = true ∧
+    (sysRun demoCfg (residueEvs ++ [.takeAck, .ctl ⟨false, true⟩, .tick, .takeRsp])).out = [] := by decide
 
 /-- a fair schedule for the demo: answer, then tick forever -/
 def fairSched : Nat → Ev
